@@ -35,16 +35,133 @@ func namedStruct(t types.Type) string {
 	return ""
 }
 
+// ---- additional race facts (C20), a separate output: the Access records above are unchanged ----
+
+// Call is one syntactic use of a method of a tracked struct type.
+type Call struct {
+	Callee   string   `json:"callee"` // Type.method
+	Func     string   `json:"func"`   // enclosing function (closures as Outer$1 …)
+	Pos      string   `json:"pos"`
+	Mode     string   `json:"mode"` // "call" | "go" | "defer" | "value" (method value, not called in place)
+	Held     []string `json:"held"` // mutex fields syntactically held at the call
+	PostFork bool     `json:"postFork"`
+}
+
+// AccSite identifies an access record (same struct/field/func/pos as in Access).
+type AccSite struct {
+	Struct string `json:"struct"`
+	Field  string `json:"field"`
+	Func   string `json:"func"`
+	Pos    string `json:"pos"`
+}
+
+// RaceAux: call sites of methods of the tracked types with the locks held at the call; the write records that are
+// really `close(x.f)` channel operations; the access records that do not precede every `go` statement of their function.
+type RaceAux struct {
+	Calls      []Call `json:"calls"`
+	ChanCloses []AccSite `json:"chanCloses"`
+	PostFork   []AccSite `json:"postFork"`
+}
+
 type accWalker struct {
 	p       *Pkg
 	tracked map[string]bool
 	out     []Access
 	fn      string
 	nclos   int
+	// race aux
+	aux       RaceAux
+	forkPos   map[string]token.Pos // function -> first position that may follow a `go` statement of that function
+	callMode  string
+	funOfCall map[ast.Expr]bool
+	isClose   bool
+}
+
+// firstForkPos returns the first source position of body (not descending into function literals) from which a
+// `go` statement of this body may already have been executed: the `go` statement itself, or the start of the
+// outermost loop that contains one.
+func firstForkPos(body *ast.BlockStmt) token.Pos {
+	best := token.NoPos
+	var loops []ast.Node
+	var visit func(n ast.Node)
+	visit = func(n ast.Node) {
+		if n == nil {
+			return
+		}
+		ast.Inspect(n, func(m ast.Node) bool {
+			switch x := m.(type) {
+			case *ast.FuncLit:
+				return false
+			case *ast.GoStmt:
+				pos := x.Pos()
+				if len(loops) > 0 {
+					pos = loops[0].Pos()
+				}
+				if best == token.NoPos || pos < best {
+					best = pos
+				}
+				return false
+			case *ast.ForStmt:
+				loops = append(loops, x)
+				visit(x.Body)
+				loops = loops[:len(loops)-1]
+				return false
+			case *ast.RangeStmt:
+				loops = append(loops, x)
+				visit(x.Body)
+				loops = loops[:len(loops)-1]
+				return false
+			}
+			return true
+		})
+	}
+	visit(body)
+	return best
+}
+
+func (w *accWalker) postFork(pos token.Pos) bool {
+	fp, ok := w.forkPos[w.fn]
+	return ok && fp != token.NoPos && pos >= fp
+}
+
+// trackedMethod returns "Type.method" when e denotes a method of a tracked struct type declared in this package.
+func (w *accWalker) trackedMethod(e ast.Expr) string {
+	se, ok := e.(*ast.SelectorExpr)
+	if !ok {
+		return ""
+	}
+	sel, ok := w.p.info.Selections[se]
+	if !ok || sel.Kind() != types.MethodVal {
+		return ""
+	}
+	fn, ok := sel.Obj().(*types.Func)
+	if !ok || fn.Pkg() != w.p.pkg {
+		return ""
+	}
+	sig, ok := fn.Type().(*types.Signature)
+	if !ok || sig.Recv() == nil {
+		return ""
+	}
+	rn := namedStruct(sig.Recv().Type())
+	if !w.tracked[rn] {
+		return ""
+	}
+	return rn + "." + fn.Name()
+}
+
+func (w *accWalker) recordCall(e ast.Expr, mode string, held map[string]bool) {
+	if name := w.trackedMethod(e); name != "" {
+		w.aux.Calls = append(w.aux.Calls, Call{name, w.fn, w.p.pos(e), mode, heldList(held), w.postFork(e.Pos())})
+	}
 }
 
 func accesses(p *Pkg, structsTracked []string) []Access {
-	w := &accWalker{p: p, tracked: map[string]bool{}}
+	a, _ := accessesAux(p, structsTracked)
+	return a
+}
+
+func accessesAux(p *Pkg, structsTracked []string) ([]Access, RaceAux) {
+	w := &accWalker{p: p, tracked: map[string]bool{}, forkPos: map[string]token.Pos{}, funOfCall: map[ast.Expr]bool{}}
 	for _, s := range structsTracked {
 		w.tracked[s] = true
 	}
@@ -58,10 +175,20 @@ func accesses(p *Pkg, structsTracked []string) []Access {
 		}
 		w.fn = funcName(fd)
 		w.nclos = 0
+		w.forkPos[w.fn] = firstForkPos(fd.Body)
 		w.block(fd.Body.List, map[string]bool{})
 	}
 	sort.SliceStable(w.out, func(i, j int) bool { return w.out[i].Pos < w.out[j].Pos })
-	return w.out
+	if w.aux.Calls == nil {
+		w.aux.Calls = []Call{}
+	}
+	if w.aux.ChanCloses == nil {
+		w.aux.ChanCloses = []AccSite{}
+	}
+	if w.aux.PostFork == nil {
+		w.aux.PostFork = []AccSite{}
+	}
+	return w.out, w.aux
 }
 
 func copyHeld(h map[string]bool) map[string]bool {
@@ -132,8 +259,10 @@ func (w *accWalker) stmt(s ast.Stmt, held map[string]bool) {
 		if mu, _ := lockCall(st.Call); mu != "" {
 			return // stays held to the end of the function
 		}
+		w.callMode = "defer"
 		w.expr(st.Call, held, false)
 	case *ast.GoStmt:
+		w.callMode = "go"
 		w.expr(st.Call, held, false)
 	case *ast.AssignStmt:
 		for _, r := range st.Rhs {
@@ -247,15 +376,31 @@ func (w *accWalker) record(se *ast.SelectorExpr, held map[string]bool, write, at
 		k = "W"
 	}
 	w.out = append(w.out, Access{sn, se.Sel.Name, w.fn, w.p.pos(se), k, atomic, heldList(held), via})
+	if w.postFork(se.Pos()) {
+		w.aux.PostFork = append(w.aux.PostFork, AccSite{sn, se.Sel.Name, w.fn, w.p.pos(se)})
+	}
+	if write && w.isClose {
+		w.aux.ChanCloses = append(w.aux.ChanCloses, AccSite{sn, se.Sel.Name, w.fn, w.p.pos(se)})
+	}
 }
 
 func (w *accWalker) expr(e ast.Expr, held map[string]bool, write bool) {
 	switch x := e.(type) {
 	case nil:
 	case *ast.SelectorExpr:
+		if !w.funOfCall[x] {
+			w.recordCall(x, "value", held)
+		}
 		w.record(x, held, write, false, "")
 		w.expr(x.X, held, false)
 	case *ast.CallExpr:
+		mode := w.callMode
+		w.callMode = ""
+		if mode == "" {
+			mode = "call"
+		}
+		w.funOfCall[x.Fun] = true
+		w.recordCall(x.Fun, mode, held)
 		atomic := isAtomicCall(x)
 		// method call on a tracked field: c.awaitMu.Lock(), l.cancel(), c.logger.X(...)
 		if se, ok := x.Fun.(*ast.SelectorExpr); ok {
@@ -284,7 +429,11 @@ func (w *accWalker) expr(e ast.Expr, held map[string]bool, write bool) {
 			}
 			// builtin delete(m, k) / close(ch) write their first argument
 			if id, ok := x.Fun.(*ast.Ident); ok && (id.Name == "delete" || id.Name == "close") && a == x.Args[0] {
+				if _, direct := a.(*ast.SelectorExpr); direct && id.Name == "close" {
+					w.isClose = true
+				}
 				w.expr(a, held, true)
+				w.isClose = false
 				continue
 			}
 			w.expr(a, held, false)
@@ -295,6 +444,7 @@ func (w *accWalker) expr(e ast.Expr, held map[string]bool, write bool) {
 		w.fn = saved + "$" + itoa(w.nclos)
 		sc := w.nclos
 		w.nclos = 0
+		w.forkPos[w.fn] = firstForkPos(x.Body)
 		// a closure does not inherit the caller's locks unless it is called in place; the repo never does that
 		// except through defer, where the deferred closure runs at function end (locks taken with defer-unlock are still held
 		// only if registered before; we are conservative and give it none).
